@@ -200,6 +200,11 @@ def run_case(spec):
         par = {}
         for a, c in enumerate('xyz'):
             par['N' + c], par[c + 'min'], par['d' + c] = axes[a]
+        if rng.random() < 0.4:
+            # dictionaries coming from parameters() also carry domain bounds
+            for c in 'xyz':
+                par[c + 'max'] = par[c + 'min'] + par['N' + c] * par['d' + c]
+                par['L' + c] = par['N' + c] * par['d' + c]
         check_grid(res, par, order)
         if todo and i % (spec['n'] // todo) == 0:
             # consumers need room for the stencils: at least 3p/2+1 points
